@@ -84,16 +84,22 @@ package dir
 //@ onwrite nfstypes.Entryplus3.Cookie: lastcookie = uint64(value)
 //@ onwrite nfstypes.Entryplus3.Fileid: lastfileid = uint64(value)
 //@ onwrite nfstypes.Entryplus3.Name: lastname = string(value)
+//@ ghost lasthino uint64
+//@ ghost lasthgen uint64
+//@ ghost lastattrid uint64
+//@ onwrite nfstypes.Entryplus3.Name_handle: lasthino = ite(value.Handle_follows && len(value.Handle.Data) == 16, le64(value.Handle.Data, 0), 0)
+//@ onwrite nfstypes.Entryplus3.Name_handle: lasthgen = ite(value.Handle_follows && len(value.Handle.Data) == 16, le64(value.Handle.Data, 8), 0)
+//@ onwrite nfstypes.Entryplus3.Name_attributes: lastattrid = ite(value.Attributes_follow, uint64(value.Attributes.Fileid), 0)
 //@ spec ApplyEnts
 //@   props C13 C11 C06 C10
 //@   requires dirReady(dip, op) && dip.Kind == 2
 //@   requires [E1-cookie] start & 127 == 0 @C13 @C11
 //@   preserves [allocInv] allocInv() @C15 @C04
-//@   callback f(name, inum, off): requires [E1-slot] off & 127 == 0 && !emitted[off] && (!emitany || emitlast < off) && inum != 0; modifies nfstypes.Entry3, cell:*nfstypes.Entry3, map[string]dcache.Dentry, emitted, emitany, emitlast, lastcookie, lastfileid, lastname; ghostexit emitted = store(emitted, off, true); ghostexit emitany = true; ghostexit emitlast = off
+//@   callback f(name, inum, off): requires [E1-slot] off & 127 == 0 && !emitted[off] && (!emitany || emitlast < off) && inum != 0; modifies nfstypes.Entry3, cell:*nfstypes.Entry3, map[string]dcache.Dentry, emitted, emitany, emitlast, lastcookie, lastfileid, lastname, lasthino, lasthgen, lastattrid; ghostexit emitted = store(emitted, off, true); ghostexit emitany = true; ghostexit emitlast = off
 //@   ghostset emitted = empty
 //@   ghostset emitany = false
 //@   allocates buf.Buf, marshal.Enc, marshal.Dec, cell:uint64, []uint8, dir.dirEnt, nfstypes.Entry3
-//@   modifies dip.blks[*], dirtyinum, wroteinum, abits, op.Atxn.allocBnums, []uint64@alloctxn.AllocTxn.allocBnums, []uint8@buf.Buf.Data, buf.Buf.dirty, nfstypes.Entry3, cell:*nfstypes.Entry3, map[string]dcache.Dentry, emitted, emitany, emitlast, lastcookie, lastfileid, lastname
+//@   modifies dip.blks[*], dirtyinum, wroteinum, abits, op.Atxn.allocBnums, []uint64@alloctxn.AllocTxn.allocBnums, []uint8@buf.Buf.Data, buf.Buf.dirty, nfstypes.Entry3, cell:*nfstypes.Entry3, map[string]dcache.Dentry, emitted, emitany, emitlast, lastcookie, lastfileid, lastname, lasthino, lasthgen, lastattrid
 //@   ensures [ibits-same] abits[theIalloc] == old(abits)[theIalloc] @C05
 //@   ensures [E1-sound] emitSound(dip, start, dip.Size) @C13
 //@   ensures [E3-complete] emitComplete(dip, start, ite(result, dip.Size, emitlast + 128)) @C13
@@ -115,7 +121,7 @@ package dir
 //@   requires dirReady(dip, op) && dip.Kind == 2
 //@   preserves [allocInv] allocInv() @C15 @C04
 //@   allocates buf.Buf, marshal.Enc, marshal.Dec, cell:uint64, []uint8, dir.dirEnt, dcache.Dcache, map[string]dcache.Dentry, nfstypes.Entry3
-//@   modifies dip.Dcache, dip.blks[*], dirtyinum, wroteinum, abits, op.Atxn.allocBnums, []uint64@alloctxn.AllocTxn.allocBnums, []uint8@buf.Buf.Data, buf.Buf.dirty, nfstypes.Entry3, cell:*nfstypes.Entry3, map[string]dcache.Dentry, emitted, emitany, emitlast, lastcookie, lastfileid, lastname
+//@   modifies dip.Dcache, dip.blks[*], dirtyinum, wroteinum, abits, op.Atxn.allocBnums, []uint64@alloctxn.AllocTxn.allocBnums, []uint8@buf.Buf.Data, buf.Buf.dirty, nfstypes.Entry3, cell:*nfstypes.Entry3, map[string]dcache.Dentry, emitted, emitany, emitlast, lastcookie, lastfileid, lastname, lasthino, lasthgen, lastattrid
 //@   ensures [ibits-same] abits[theIalloc] == old(abits)[theIalloc] @C05
 //@   ensures dip.Dcache != nil && fresh(dip.Dcache) && dip.Dcache.Lastoff == 0
 //@   ensures dirModsOK(dip, op) && dip.Size == old(dip.Size)
@@ -125,7 +131,7 @@ package dir
 //@   requires dirReady(dip, op)
 //@   preserves [allocInv] allocInv() @C15 @C04
 //@   allocates buf.Buf, marshal.Enc, marshal.Dec, cell:uint64, []uint8, dir.dirEnt, dcache.Dcache, map[string]dcache.Dentry, nfstypes.Entry3
-//@   modifies dip.Dcache, dip.blks[*], dirtyinum, wroteinum, abits, op.Atxn.allocBnums, []uint64@alloctxn.AllocTxn.allocBnums, []uint8@buf.Buf.Data, buf.Buf.dirty, nfstypes.Entry3, cell:*nfstypes.Entry3, map[string]dcache.Dentry, emitted, emitany, emitlast, lastcookie, lastfileid, lastname
+//@   modifies dip.Dcache, dip.blks[*], dirtyinum, wroteinum, abits, op.Atxn.allocBnums, []uint64@alloctxn.AllocTxn.allocBnums, []uint8@buf.Buf.Data, buf.Buf.dirty, nfstypes.Entry3, cell:*nfstypes.Entry3, map[string]dcache.Dentry, emitted, emitany, emitlast, lastcookie, lastfileid, lastname, lasthino, lasthgen, lastattrid
 //@   ensures [ibits-same] abits[theIalloc] == old(abits)[theIalloc] @C05
 //@   ensures [Fn5-notdir] dip.Kind != 2 ==> result0 == 0 @C02
 //@   assumes [Fn5-lookup] dip.Kind == 2 ==> result0 == dnames[dip.Inum][name]
@@ -140,7 +146,7 @@ package dir
 //@   requires dirReady(dip, op)
 //@   preserves [allocInv] allocInv() @C15 @C04
 //@   allocates buf.Buf, marshal.Enc, marshal.Dec, cell:uint64, []uint8, dir.dirEnt, dcache.Dcache, map[string]dcache.Dentry, nfstypes.Entry3
-//@   modifies dip.Size, dip.Dcache, dip.blks[*], dirtyinum, wroteinum, abits, op.Atxn.allocBnums, []uint64@alloctxn.AllocTxn.allocBnums, []uint8@buf.Buf.Data, buf.Buf.dirty, nfstypes.Entry3, cell:*nfstypes.Entry3, map[string]dcache.Dentry, emitted, emitany, emitlast, lastcookie, lastfileid, lastname
+//@   modifies dip.Size, dip.Dcache, dip.blks[*], dirtyinum, wroteinum, abits, op.Atxn.allocBnums, []uint64@alloctxn.AllocTxn.allocBnums, []uint8@buf.Buf.Data, buf.Buf.dirty, nfstypes.Entry3, cell:*nfstypes.Entry3, map[string]dcache.Dentry, emitted, emitany, emitlast, lastcookie, lastfileid, lastname, lasthino, lasthgen, lastattrid
 //@   ensures [ibits-same] abits[theIalloc] == old(abits)[theIalloc] @C05
 //@   ensures [E7-slot] result1 ==> result0 & 127 == 0 && result0 < dip.Size @C13
 //@   ensures [E7-size] dip.Size == old(dip.Size) @C13 @C09
@@ -155,7 +161,7 @@ package dir
 //@   requires [I3-store] inum < 32768 @C04
 //@   preserves [allocInv] allocInv() @C15 @C04
 //@   allocates buf.Buf, marshal.Enc, marshal.Dec, cell:uint64, []uint8, dir.dirEnt, dcache.Dcache, map[string]dcache.Dentry, nfstypes.Entry3
-//@   modifies dnames, dip.Size, dip.Dcache, dcache.Dcache.Lastoff, dip.blks[*], dirtyinum, wroteinum, abits, op.Atxn.allocBnums, []uint64@alloctxn.AllocTxn.allocBnums, []uint8@buf.Buf.Data, buf.Buf.dirty, nfstypes.Entry3, cell:*nfstypes.Entry3, map[string]dcache.Dentry, emitted, emitany, emitlast, lastcookie, lastfileid, lastname
+//@   modifies dnames, dip.Size, dip.Dcache, dcache.Dcache.Lastoff, dip.blks[*], dirtyinum, wroteinum, abits, op.Atxn.allocBnums, []uint64@alloctxn.AllocTxn.allocBnums, []uint8@buf.Buf.Data, buf.Buf.dirty, nfstypes.Entry3, cell:*nfstypes.Entry3, map[string]dcache.Dentry, emitted, emitany, emitlast, lastcookie, lastfileid, lastname, lasthino, lasthgen, lastattrid
 //@   ensures [frame-dcache] (forall d *dcache.Dcache :: d != dip.Dcache ==> d.Lastoff == old(d.Lastoff)) && (old(dip.Dcache) != nil ==> dip.Dcache == old(dip.Dcache)) && (dip.Dcache == old(dip.Dcache) || fresh(dip.Dcache))
 //@   ensures [ibits-same] abits[theIalloc] == old(abits)[theIalloc] @C05
 //@   ghostexit dnames = ite(result, store(dnames, dip.Inum, store(dnames[dip.Inum], name, inum)), dnames)
@@ -170,7 +176,7 @@ package dir
 //@   requires dirReady(dip, op)
 //@   preserves [allocInv] allocInv() @C15 @C04
 //@   allocates buf.Buf, marshal.Enc, marshal.Dec, cell:uint64, []uint8, dir.dirEnt, dcache.Dcache, map[string]dcache.Dentry, nfstypes.Entry3
-//@   modifies dnames, dip.Size, dip.Dcache, dcache.Dcache.Lastoff, dip.blks[*], dirtyinum, wroteinum, abits, op.Atxn.allocBnums, []uint64@alloctxn.AllocTxn.allocBnums, []uint8@buf.Buf.Data, buf.Buf.dirty, nfstypes.Entry3, cell:*nfstypes.Entry3, map[string]dcache.Dentry, emitted, emitany, emitlast, lastcookie, lastfileid, lastname
+//@   modifies dnames, dip.Size, dip.Dcache, dcache.Dcache.Lastoff, dip.blks[*], dirtyinum, wroteinum, abits, op.Atxn.allocBnums, []uint64@alloctxn.AllocTxn.allocBnums, []uint8@buf.Buf.Data, buf.Buf.dirty, nfstypes.Entry3, cell:*nfstypes.Entry3, map[string]dcache.Dentry, emitted, emitany, emitlast, lastcookie, lastfileid, lastname, lasthino, lasthgen, lastattrid
 //@   ensures [frame-dcache] (forall d *dcache.Dcache :: d != dip.Dcache ==> d.Lastoff == old(d.Lastoff)) && (old(dip.Dcache) != nil ==> dip.Dcache == old(dip.Dcache)) && (dip.Dcache == old(dip.Dcache) || fresh(dip.Dcache))
 //@   ensures [ibits-same] abits[theIalloc] == old(abits)[theIalloc] @C05
 //@   ghostexit dnames = ite(result, store(dnames, dip.Inum, store(dnames[dip.Inum], name, 0)), dnames)
@@ -185,7 +191,7 @@ package dir
 //@   requires dirReady(dip, op) && parent < 32768
 //@   preserves [allocInv] allocInv() @C15 @C04
 //@   allocates buf.Buf, marshal.Enc, marshal.Dec, cell:uint64, []uint8, dir.dirEnt, dcache.Dcache, map[string]dcache.Dentry, nfstypes.Entry3
-//@   modifies dnames, dip.Size, dip.Dcache, dcache.Dcache.Lastoff, dip.blks[*], dirtyinum, wroteinum, abits, op.Atxn.allocBnums, []uint64@alloctxn.AllocTxn.allocBnums, []uint8@buf.Buf.Data, buf.Buf.dirty, nfstypes.Entry3, cell:*nfstypes.Entry3, map[string]dcache.Dentry, emitted, emitany, emitlast, lastcookie, lastfileid, lastname
+//@   modifies dnames, dip.Size, dip.Dcache, dcache.Dcache.Lastoff, dip.blks[*], dirtyinum, wroteinum, abits, op.Atxn.allocBnums, []uint64@alloctxn.AllocTxn.allocBnums, []uint8@buf.Buf.Data, buf.Buf.dirty, nfstypes.Entry3, cell:*nfstypes.Entry3, map[string]dcache.Dentry, emitted, emitany, emitlast, lastcookie, lastfileid, lastname, lasthino, lasthgen, lastattrid
 //@   ensures [frame-dcache] (forall d *dcache.Dcache :: d != dip.Dcache ==> d.Lastoff == old(d.Lastoff)) && (old(dip.Dcache) != nil ==> dip.Dcache == old(dip.Dcache)) && (dip.Dcache == old(dip.Dcache) || fresh(dip.Dcache))
 //@   ensures [ibits-same] abits[theIalloc] == old(abits)[theIalloc] @C05
 //@   ensures [I6-dots] result ==> dnames[dip.Inum]["."] == dip.Inum && dnames[dip.Inum][".."] == parent @C04
@@ -196,7 +202,7 @@ package dir
 //@   requires dirReady(dip, op) && dip.Inum < 32768
 //@   preserves [allocInv] allocInv() @C15 @C04
 //@   allocates buf.Buf, marshal.Enc, marshal.Dec, cell:uint64, []uint8, dir.dirEnt, dcache.Dcache, map[string]dcache.Dentry, nfstypes.Entry3
-//@   modifies dnames, dip.Size, dip.Dcache, dcache.Dcache.Lastoff, dip.blks[*], dirtyinum, wroteinum, abits, op.Atxn.allocBnums, []uint64@alloctxn.AllocTxn.allocBnums, []uint8@buf.Buf.Data, buf.Buf.dirty, nfstypes.Entry3, cell:*nfstypes.Entry3, map[string]dcache.Dentry, emitted, emitany, emitlast, lastcookie, lastfileid, lastname
+//@   modifies dnames, dip.Size, dip.Dcache, dcache.Dcache.Lastoff, dip.blks[*], dirtyinum, wroteinum, abits, op.Atxn.allocBnums, []uint64@alloctxn.AllocTxn.allocBnums, []uint8@buf.Buf.Data, buf.Buf.dirty, nfstypes.Entry3, cell:*nfstypes.Entry3, map[string]dcache.Dentry, emitted, emitany, emitlast, lastcookie, lastfileid, lastname, lasthino, lasthgen, lastattrid
 //@   ensures [frame-dcache] (forall d *dcache.Dcache :: d != dip.Dcache ==> d.Lastoff == old(d.Lastoff)) && (old(dip.Dcache) != nil ==> dip.Dcache == old(dip.Dcache)) && (dip.Dcache == old(dip.Dcache) || fresh(dip.Dcache))
 //@   ensures [ibits-same] abits[theIalloc] == old(abits)[theIalloc] @C05
 //@   ensures [I6-rootdots] result ==> dnames[dip.Inum]["."] == dip.Inum && dnames[dip.Inum][".."] == dip.Inum @C04
@@ -209,11 +215,11 @@ package dir
 //@   requires dirReady(dip, op) && dip.Kind == 2
 //@   requires [E1-cookie] start & 127 == 0 @C13 @C11
 //@   preserves [allocInv] allocInv() @C15 @C04
-//@   callback f(ip, name, inum, off): requires [E1-slot] ip != nil && held[ip.Inum] && ip.Inum == inum && off & 127 == 0 && !emitted[off] && (!emitany || emitlast < off) && inum != 0; modifies nfstypes.Entryplus3, cell:*nfstypes.Entryplus3, emitted, emitany, emitlast, lastcookie, lastfileid, lastname; ghostexit emitted = store(emitted, off, true); ghostexit emitany = true; ghostexit emitlast = off
+//@   callback f(ip, name, inum, off): requires [E1-slot] ip != nil && held[ip.Inum] && ip.Inum == inum && off & 127 == 0 && !emitted[off] && (!emitany || emitlast < off) && inum != 0; modifies nfstypes.Entryplus3, cell:*nfstypes.Entryplus3, emitted, emitany, emitlast, lastcookie, lastfileid, lastname, lasthino, lasthgen, lastattrid; ghostexit emitted = store(emitted, off, true); ghostexit emitany = true; ghostexit emitlast = off
 //@   ghostset emitted = empty
 //@   ghostset emitany = false
 //@   allocates buf.Buf, marshal.Enc, marshal.Dec, cell:uint64, []uint8, dir.dirEnt, nfstypes.Entryplus3, cache.Cslot, inode.Inode, []uint64
-//@   modifies dip.blks[*], dirtyinum, wroteinum, abits, op.Atxn.allocBnums, []uint64@alloctxn.AllocTxn.allocBnums, []uint8@buf.Buf.Data, buf.Buf.dirty, nfstypes.Entryplus3, cell:*nfstypes.Entryplus3, emitted, emitany, emitlast, lastcookie, lastfileid, lastname, cache.Cslot.Obj, map[uint64]*inode.Inode, held
+//@   modifies dip.blks[*], dirtyinum, wroteinum, abits, op.Atxn.allocBnums, []uint64@alloctxn.AllocTxn.allocBnums, []uint8@buf.Buf.Data, buf.Buf.dirty, nfstypes.Entryplus3, cell:*nfstypes.Entryplus3, emitted, emitany, emitlast, lastcookie, lastfileid, lastname, lasthino, lasthgen, lastattrid, cache.Cslot.Obj, map[uint64]*inode.Inode, held
 //@   ensures [ibits-same] abits[theIalloc] == old(abits)[theIalloc] @C05
 //@   ensures [E1-sound] emitSound(dip, start, dip.Size) @C13
 //@   ensures [E3-complete] emitComplete(dip, start, ite(result, dip.Size, emitlast + 128)) @C13
